@@ -67,6 +67,100 @@ def valueOfField (enc : Enc) : Ty → Op → Bytes → R Val
   | .opt t, o, s => (valueOfField enc t o s).map Val.some
   | ty, _, s => valueOfScalar enc ty s
 
+/-- elements of a sequence, left to right; the first error wins -/
+def seqVals (valF : Node → R Val) : List Node → R (List Val)
+  | [] => .ok []
+  | v :: r =>
+    match valF v with
+    | .error e => .error e
+    | .ok x =>
+      match seqVals valF r with
+      | .error e => .error e
+      | .ok tl => .ok (x :: tl)
+
+/-- entries of a map in document order: decoded key, value -/
+def mapVals (enc : Enc) (valF : Op → Node → R Val) : List (Bytes × Op × Node) → List (Val × Val) → R (List (Val × Val))
+  | [], acc => .ok acc
+  | (k, o, v) :: r, acc =>
+    match valF o v with
+    | .error e => .error e
+    | .ok x => mapVals enc valF r (acc ++ [(Val.str (decode enc k), x)])
+
+/-- fields of a struct in document order: a declared field takes its value (a second occurrence is
+the error `duplicate`), an unknown field is ignored whatever its value is -/
+def structVals (enc : Enc) (fs : List (Bytes × Ty)) (valF : Ty → Op → Node → R Val) :
+    List (Bytes × Op × Node) → List (Nat × Val) → R (List (Nat × Val))
+  | [], seen => .ok seen
+  | (k, o, v) :: r, seen =>
+    match lookupIdx (decode enc k) fs 0 with
+    | some (i, t) =>
+      if (seenGet i seen).isSome then .error (.duplicate (decode enc k)) else
+      match valF t o v with
+      | .error e => .error e
+      | .ok x => structVals enc fs valF r (seen ++ [(i, x)])
+    | none => structVals enc fs valF r seen
+
+/-- the value a (type, value node) pair denotes; `o` is the operator the value was written with
+(captured by `Property`).  The fuel bounds the nesting of the type (`Ty.height`); every call
+descends one level of the type. -/
+def valueOfN (enc : Enc) : Nat → Ty → Op → Node → R Val
+  | 0, _, _, _ => .error .panic
+  | f + 1, ty, o, v =>
+    match ty with
+    | .ign => .ok .ign
+    | .opt t => (valueOfN enc f t o v).map Val.some
+    | .prop t => (valueOfN enc f t .eq v).map (Val.prop o)
+    | .seq t =>
+      (match v with
+       | .arr vs => (seqVals (valueOfN enc f t .eq) vs).map Val.seq
+       | _ => .error .type)
+    | .map t =>
+      (match v with
+       | .obj dfs => (mapVals enc (valueOfN enc f t) dfs []).map Val.map
+       | _ => .error .type)
+    | .st fs =>
+      (match v with
+       | .obj dfs =>
+         (match structVals enc fs (valueOfN enc f) dfs [] with
+          | .error e => .error e
+          | .ok seen => (structFinish fs 0 seen).map Val.st)
+       | _ => .error .type)
+    | ty =>
+      (match v with
+       | .leaf l => valueOfScalar enc ty l.bytes
+       | _ => .error .type)
+
+/-- the value of a document under a target type: the root deserializer only works with
+key-value pairs (structs and maps) -/
+def valueOf (enc : Enc) (ty : Ty) (d : Doc) : R Val :=
+  match ty with
+  | .st _ | .map _ => valueOfN enc (ty.height + 1) ty .eq (.obj d)
+  | _ => .error .other
+
+/-- the root deserializer works with key-value pairs: a struct or a map -/
+def Ty.isRoot : Ty → Bool
+  | .st _ | .map _ => true
+  | _ => false
+
+/-- typed leaves, strings, `any`, unit enums -/
+def Ty.isPlainScalar : Ty → Bool
+  | .bool | .i64 | .u64 | .i32 | .u32 | .f64 | .f32 | .str | .any | .en _ => true
+  | _ => false
+
+/-- the target type requests the document's shape: scalars as scalars, maps as maps (structs
+may leave fields undeclared: those are skipped whatever they contain), sequences as sequences;
+`ign` fits everything; `Option` / `Property` are transparent -/
+inductive Fits (enc : Enc) : Ty → Node → Prop where
+  | scalar {ty : Ty} {l : Leaf} : Ty.isPlainScalar ty = true → Fits enc ty (.leaf l)
+  | ign {v : Node} : Fits enc .ign v
+  | opt {t : Ty} {v : Node} : Fits enc t v → Fits enc (.opt t) v
+  | prop {t : Ty} {v : Node} : Fits enc t v → Fits enc (.prop t) v
+  | seq {t : Ty} {vs : List Node} : (∀ v, v ∈ vs → Fits enc t v) → Fits enc (.seq t) (.arr vs)
+  | map {t : Ty} {dfs : List (Bytes × Op × Node)} : (∀ k o v, (k, o, v) ∈ dfs → Fits enc t v) → Fits enc (.map t) (.obj dfs)
+  | st {fs : List (Bytes × Ty)} {dfs : List (Bytes × Op × Node)} :
+      (∀ k o v, (k, o, v) ∈ dfs → ∀ i t, lookupIdx (decode enc k) fs 0 = some (i, t) → Fits enc t v) →
+      Fits enc (.st fs) (.obj dfs)
+
 /-! ### parser outputs a document stands for -/
 
 def Leaf.rtok (l : Leaf) : RTok := if l.quoted then .quo l.bytes else .unq l.bytes
